@@ -4,7 +4,8 @@ For each seeded change: git apply it to /repo, run its demonstration (must fail)
 (and optionally thorough) check of the property it breaks (must exit 1 with a VIOLATION line),
 and undo the change straight afterwards (git checkout -- .). Results go to seeded/RESULTS.json.
 
-usage: /venv/bin/python vt/tools/seeded.py [name ...] [--thorough] [--also Cnn,Cmm]
+usage: /venv/bin/python vt/tools/seeded.py [name ...] [--thorough]
+Sharded: run from a worktree of /verif with SEEDED_REPO=<worktree of /repo> SEEDED_RESULTS=<file>; merge the files afterwards.
 """
 import json
 import os
@@ -14,7 +15,8 @@ import time
 from pathlib import Path
 
 V = Path(__file__).resolve().parents[2]
-REPO = "/repo"
+REPO = os.environ.get("SEEDED_REPO", "/repo")  # a scratch worktree of /repo for sharded runs (then DARSIA_REPO is passed to the check)
+RESULTS = os.environ.get("SEEDED_RESULTS")  # alternative results file for a shard
 
 
 def sh(cmd, **kw):
@@ -25,7 +27,7 @@ def main():
     args = [a for a in sys.argv[1:] if not a.startswith("--")]
     thorough = "--thorough" in sys.argv
     names = args or sorted(p.name for p in (V / "seeded").iterdir() if (p / "patch.diff").exists())
-    res_path = V / "seeded" / "RESULTS.json"
+    res_path = Path(RESULTS) if RESULTS else V / "seeded" / "RESULTS.json"
     results = json.loads(res_path.read_text()) if res_path.exists() else {}
     assert sh(f"git -C {REPO} status --porcelain").stdout.strip() == "", "/repo not clean"
     for name in names:
@@ -43,7 +45,8 @@ def main():
             r["demo_fails_with_change"] = demo.returncode != 0
             for tier in ["quick"] + (["thorough"] if thorough else []):
                 t0 = time.time()
-                c = sh(f"cd {V} && VERIF_SEED={os.environ.get('VERIF_SEED', '0')} ./check {prop} {tier}", timeout=7200)
+                dr = "" if REPO == "/repo" else f"DARSIA_REPO={REPO} "
+                c = sh(f"cd {V} && {dr}VERIF_SEED={os.environ.get('VERIF_SEED', '0')} ./check {prop} {tier}", timeout=7200)
                 viol = [l for l in c.stdout.splitlines() if l.startswith("VIOLATION")]
                 r[tier] = {"exit": c.returncode, "violations": viol[:5], "wall_s": round(time.time() - t0, 1),
                            "detected": c.returncode == 1 and bool(viol),
